@@ -61,6 +61,15 @@ func genC09(r *Rng, e *Emitter, n int) {
 		e.emit("C09.measure", fmt.Sprintf("(%s %d %s %s)", tag, g.Stride(), sxCoord(g.FlatCoords()), ends),
 			guard(func() string { return fmt.Sprintf("(ok (%s %s))", hexF(g.Area()), hexF(g.Length())) }))
 	}
+	// geometries without a layout (stride 0: what a decoder returns for a geometry with no
+	// coordinates at all) are well formed and measure zero
+	emit("ls", geom.NewLineString(geom.NoLayout), "()")
+	emit("lr", geom.NewLinearRing(geom.NoLayout), "()")
+	emit("pt", geom.NewPointEmpty(geom.NoLayout), "()")
+	emit("pg", geom.NewPolygon(geom.NoLayout), "()")
+	emit("mls", geom.NewMultiLineString(geom.NoLayout), "()")
+	emit("mp", geom.NewMultiPoint(geom.NoLayout), "()")
+	emit("mpg", geom.NewMultiPolygon(geom.NoLayout), "()")
 	// regression corpus: repaired D1 (empty polygon inside a MultiPolygon)
 	{
 		mp := geom.NewMultiPolygonFlat(geom.XY, []float64{0, 0, 4, 0, 4, 4, 0, 0}, [][]int{{}, {8}})
